@@ -23,13 +23,15 @@ ASSUMPTIONS = [
 
 A_NOP = ["[C]", "[=N]", "[O]", "[Branch1]", "[#Branch1]", "[Ring1]", "[=Ring2]", ".", "[Xx]"]
 A_NOP2 = ["[C]", "[=C]", "[Branch2]", "[Ring1]", "[Ring2]", "[epsilon]", "[/C]", "[-\\Ring1]"]
-ALPH = {"main": A_NOP, "second": A_NOP2}
+# branches that terminate early (halogen, =O, [epsilon]) and leave a discarded tail inside their symbol budget
+A_NOP3 = ["[C]", "[F]", "[=O]", "[Branch1]", "[Ring1]", "[epsilon]", "[N]"]
+ALPH = {"main": A_NOP, "second": A_NOP2, "early-end": A_NOP3}
 
 
 def plan(tier, seed):
     thorough = tier == "thorough"
     grid = [("main", "default", 6 if thorough else 5), ("second", "default", 6 if thorough else 5),
-            ("main", "mix", 5 if thorough else 4)]
+            ("main", "mix", 5 if thorough else 4), ("early-end", "default", 7 if thorough else 6)]
     extras = [("second", "big", 4), ("main", "hypervalent", 4), ("second", "octet_rule", 4)]
     grid.append(extras[seed % len(extras)])
     scopes, tasks = [], []
@@ -37,7 +39,9 @@ def plan(tier, seed):
         name = "%s/%s/L%d" % (an, tn, L)
         scopes.append({"name": name, "alphabet": ALPH[an], "table": tn, "bound_L": L,
                        "tree_size": E1.tree_size(len(ALPH[an]), L),
-                       "variants_per_string": "2^(|w|+1) subsets + (|w|+1) doubled + pad round trips"})
+                       "variants_per_string": "2^(|w|+1) subsets (|w| <= 5; for longer strings every single position and all "
+                                              "positions) + (|w|+1) doubled + single/all positions under compatible=True and "
+                                              "attribute=True + pad round trips"})
         for sh in E1.shard_prefixes(ALPH[an], L, 2):
             tasks.append((name, (an, tn, L, sh)))
     runs = [1, 2, 3, 10, 100, 500, 900, 1000, 1100, 2000, 5000] + ([20000] if thorough else [])
@@ -73,7 +77,8 @@ def outcome(s, **kw):
 
 def variants(w):
     n = len(w)
-    for mask in range(1, 1 << (n + 1)):
+    masks = range(1, 1 << (n + 1)) if n <= 5 else [1 << i for i in range(n + 1)] + [(1 << (n + 1)) - 1]
+    for mask in masks:
         parts = []
         for i in range(n + 1):
             if mask >> i & 1:
